@@ -56,6 +56,7 @@ class G:
         self.multi = set()        # variables that may hold more than one value (assigned under a branch, or derived)
         self.written = set()
         self.list_len = {}
+        self.fw_log = []          # (object variable, field) of every direct field write, in emission order
         self.helpers = []         # generated callees: (name, returns an object?, body lines); placed after m0
 
     def fresh(self, p):
@@ -158,11 +159,13 @@ def gen_stmt(g, env, indent, depth):
         f = g.pick(["f0", "f1"])
         g.labels.add("field_write")
         g.emit(indent, "%s.%s = %s" % (o, f, g.pick(ints) if g.coin() else str(g.draw(st.integers(0, 9)))))
+        g.fw_log.append((o, f))
         return
     if r == 12 and objs1:
         o = g.pick(objs1)
         g.labels.add("field_write")
         g.emit(indent, "%s.g0 = %s" % (o, g.pick(ints)))
+        g.fw_log.append((o, "g0"))
         return
     if r <= 14 and (objs0 or objs1):
         v = g.fresh("v")
@@ -205,6 +208,7 @@ def gen_stmt(g, env, indent, depth):
         g.cond += 1
         g.labels.add("branch")
         g.emit(indent, "if %s:" % c)
+        fw0 = len(g.fw_log)
         outer_written, g.written = g.written, set()
         multi_before = set(g.multi)
         e1 = dict(env)
@@ -220,6 +224,16 @@ def gen_stmt(g, env, indent, depth):
         g.multi = multi_before | multi_arm1 | g.multi | {v for v in g.written if v in env}
         g.written = outer_written | g.written
         # variables existing before the branch keep their kind; new ones are not visible afterwards
+        arm_writes = [(o, f) for (o, f) in g.fw_log[fw0:] if o in env]
+        if arm_writes and g.coin():
+            # the object reaches the join in two versions; the first statement after the join overwrites the field
+            o, f = g.pick(arm_writes)
+            g.labels.add("overwrite_after_join")
+            g.emit(indent, "%s.%s = %d" % (o, f, g.draw(st.integers(0, 9))))
+            g.fw_log.append((o, f))
+            w = g.fresh("v")
+            g.emit(indent, "%s = %s.%s" % (w, o, f), w, multi=True)
+            env[w] = "int"
         return
     if r == 20 and g.lists:
         v = g.fresh("l")
